@@ -679,3 +679,97 @@ def harnesses(tier):   # noqa: F811
         return _c09_prev3(tier) + [ListEntryShown(['s', 'ms'], Fraction(1, 10 ** 7), Fraction(10 ** 4))]
     hs = _c09_prev3(tier) + [ListEntryShown(['s', 'ms']), ListEntryShown(['ks', 's', 'ms']), ListEntryShown(['s', 'us'])]
     return hs
+
+
+# --------------------------------------------------------------------------------------------------------------
+# The explicit list conversion as produced by eval_query itself (`v -> hour;minute;second`), not only to_list.
+
+class ListReply(Harness):
+    name = 'eval_query.unit_list_reply'
+    props = ('C09', 'C04')
+    entry = 'eval_query'
+    describe = ('eval_query on `v s -> hour;minute;second` (database unit values): the entries of the UnitList reply obey the decomposition law - '
+                'exact sum, integral but the last, common sign, remainder below the unit')
+    stubs = (LOOKUP_STUB, SHOW_STUB, TO_PARTS_STUB, CANON_STUB, CONF_STUB, UNKNOWN_STUB, DEFAULT_PARTS,
+             (r'^eval_expr$', lambda ex, nc, a: ok(dup(ex.env['value'])), 'eval_expr -> arbitrary number of seconds'))
+    loop_bound = 12
+    expect_classes = ['Result::Ok']
+    _concrete = None
+    NAMES = ['hour', 'minute', 'second']
+
+    def build(self, ex, I):
+        v = I.real('v')
+        vals = dbvalues.units(self.NAMES)
+        self.consts = [(n, Fraction(vals[n]['value'])) for n in self.NAMES]
+        ex.env['units'] = {n: number(rational(c), dim({'s': (True, 1)})) for n, c in self.consts}
+        ex.env['value'] = variant(ex, 'Value', 'Number', [number(rational(v), dim({'s': (True, 1)}))])
+        q = variant(ex, 'Query', 'Convert', [expr_const(ex, rational(Fraction(1))), variant(ex, 'Conversion', 'List', [Arr(list(self.NAMES))]), none(ex),
+                                             variant(ex, 'Digits', 'Default')])
+        reg = make_struct(ex, 'Registry', {})
+        ctxv = make_struct(ex, 'Context', {'registry': reg, 'temporaries': MapV(), 'previous_result': none(ex)})
+        return [ref(ctxv), ref(q)], {'v': v}
+
+    def post(self, ex, ctx, outcome):
+        v = zreal(ctx['v'])
+        r = deref_all(outcome[1])
+        if not is_ok(r):
+            return [('a time converts to a list of time units', False)]
+        rep = deref_all(payload(r))
+        if rep.vname != 'UnitList':
+            return [('a list conversion yields a UnitList reply (got %s)' % rep.vname, False)]
+        ul = deref_all(rep.fields[0])
+        lst = deref_all(ul.fields[ex.prog.src.structs['UnitListReply'].index('list')])
+        rv = ex.prog.src.structs['NumberParts'].index('raw_value')
+        if len(lst.fields) != len(self.consts):
+            return [('one entry per unit', False)]
+        obs = []
+        total, rem = z3.RealVal(0), v
+        for i, (np_, (nm, c)) in enumerate(zip(lst.fields, self.consts)):
+            raw = deref_all(np_).fields[rv]
+            if not is_some(raw):
+                return [('entry %s carries its raw value' % nm, False)]
+            x = zreal(numeric_parts(number_parts(payload(raw))[0])[1])
+            total = total + x * zreal(c)
+            rem = rem - x * zreal(c)
+            if i < len(self.consts) - 1:
+                obs.append(('%s is an integer' % nm, z3.IsInt(x)))
+                obs.append(('remainder after %s is smaller than one %s' % (nm, nm), z3.If(rem >= 0, rem, -rem) < zreal(c)))
+            obs.append(('%s shares the sign of the value' % nm, z3.Or(x == 0, (x > 0) == (v > 0))))
+        obs.append(('the entries times their units sum to the value', total == v))
+        return obs
+
+    def prefer(self, ctx):
+        return [z3.IsInt(ctx['v']), z3.And(ctx['v'] > -10 ** 6, ctx['v'] < 10 ** 6), ctx['v'] < 0]
+
+    def native(self, inputs, label):
+        return [{'mode': 'query', 'text': '%s s -> hour;minute;second' % frac_text(Fraction(inputs['v']))}]
+
+    def judge(self, inputs, label, obs):
+        q = obs[0]
+        if q.get('outcome') == 'panic' or q.get('render_panic'):
+            return True, 'panic %s' % (q.get('panic') or q.get('render_panic'))
+        j = q.get('json') or {}
+        if j.get('type') != 'unitList':
+            return True, 'not a unit list: %s' % q.get('display')
+        v = Fraction(inputs['v'])
+        worth = [3600, 60, 1]
+        parts = []
+        for p in j.get('list') or []:
+            num = ((p.get('rawValue') or {}).get('value') or {})
+            parts.append(Fraction(int(num['numer']), int(num['denom'])))
+        bad = []
+        if sum(p * w for p, w in zip(parts, worth)) != v:
+            bad.append('entries %s sum to %s s, not %s s' % (parts, sum(p * w for p, w in zip(parts, worth)), v))
+        for p in parts[:-1]:
+            if p.denominator != 1:
+                bad.append('non-integral entry %s' % p)
+        if any(p != 0 and (p > 0) != (v > 0) for p in parts):
+            bad.append('entries %s do not share the sign of %s' % (parts, v))
+        return bool(bad), '; '.join(bad) or 'list law holds: %s' % q.get('display')
+
+
+_c09_prev4 = harnesses
+
+
+def harnesses(tier):   # noqa: F811
+    return _c09_prev4(tier) + [ListReply()]
